@@ -113,7 +113,7 @@ def posStop (len : Int) (stop : Option Int) : Int :=
 theorem ref_pos_col_slice_eq (len s0 c : Int) (a b : Option Int) (k : Int) :
     Ref.pos_col_slice len s0 c a b k =
       (s0 + c * posStart len a,
-       max 0 (Int.fdiv ((posStop len b - posStart len a) + (k - 1)) k), c * k) := by
+       max 0 (Int.fdiv ((posStop len b - posStart len a) - 1) k + 1), c * k) := by
   cases a <;> cases b <;> rfl
 
 theorem posStart_eq (len : Int) (_h : 0 ≤ len) (start : Option Int) (step : Int) (hs : 0 < step) :
@@ -131,19 +131,15 @@ theorem posStop_eq (len : Int) (_h : 0 ≤ len) (stop : Option Int) (step : Int)
   | some s => simp only [decide_eq_true_eq]; (repeat' split) <;> omega
 
 theorem ceil_lemma (d step : Int) (hs : 0 < step) :
-    max 0 ((d + (step - 1)) / step) = if 0 < d then (d - 1) / step + 1 else 0 := by
+    max 0 ((d - 1) / step + 1) = if 0 < d then (d - 1) / step + 1 else 0 := by
   split
-  · have : d + (step - 1) = (d - 1) + 1 * step := by omega
-    rw [this, Int.add_mul_ediv_right _ _ (by omega)]
-    have : 0 ≤ (d - 1) / step := Int.ediv_nonneg (by omega) (by omega)
+  · have : 0 ≤ (d - 1) / step := Int.ediv_nonneg (by omega) (by omega)
     omega
-  · have : (d + (step - 1)) / step ≤ 0 := by
-      have := Int.ediv_lt_of_lt_mul hs (show d + (step - 1) < 1 * step by omega)
-      omega
+  · have : (d - 1) / step < 0 := Int.ediv_neg_of_neg_of_pos (by omega) hs
     omega
 
 theorem posLen_eq (len : Int) (h : 0 ≤ len) (start stop : Option Int) (step : Int) (hs : 0 < step) :
-    max 0 (Int.fdiv ((posStop len stop - posStart len start) + (step - 1)) step) =
+    max 0 (Int.fdiv ((posStop len stop - posStart len start) - 1) step + 1) =
       Py.sliceLen len start stop step := by
   unfold Py.sliceLen
   rw [posStart_eq len h start step hs, posStop_eq len h stop step hs,
